@@ -79,6 +79,54 @@ fn is<R: Rep>(d: &R, n: usize, def: impl Fn(usize, usize) -> bool) {
     assert!(d.size() == size, "size of the generated digraph");
 }
 
+/// Lighter comparison for larger orders: membership of every pair and the
+/// size (no iteration of arcs() / vertices()).
+fn is_light<R: Rep>(d: &R, n: usize, def: impl Fn(usize, usize) -> bool) {
+    assert!(d.order() == n, "order of the generated digraph");
+
+    let mut size = 0;
+
+    for u in 0..n {
+        for v in 0..n {
+            let want = u != v && def(u, v);
+
+            assert!(d.has_arc(u, v) == want, "exactly the defining arc set");
+
+            if want {
+                size += 1;
+            }
+        }
+    }
+
+    assert!(d.size() == size, "size of the generated digraph");
+}
+
+/// complete / empty / circuit / star at one (larger) order.
+fn some_at<R: Rep>(n: usize) {
+    cx::set_vcap(n + 1);
+    cx::set_parallelism(1);
+
+    let d = R::complete(n);
+
+    is_light(&d, n, |_, _| true);
+    core::mem::forget(d);
+
+    let d = R::empty(n);
+
+    is_light(&d, n, |_, _| false);
+    core::mem::forget(d);
+
+    let d = R::circuit(n);
+
+    is_light(&d, n, |u, v| v == (u + 1) % n);
+    core::mem::forget(d);
+
+    let d = R::star(n);
+
+    is_light(&d, n, |u, v| u == 0 || v == 0);
+    core::mem::forget(d);
+}
+
 fn all_at<R: Rep>(n: usize) {
     let d = R::empty(n);
 
@@ -152,18 +200,18 @@ fn named<R: Rep + graaf::Empty + graaf::Biclique>() {
 }
 
 /// AdjacencyList::complete under every thread count in 1..=pmax.
-pub fn complete_threads(n: usize, pmax: usize) {
+pub fn complete_threads(n: usize, cfg: usize) {
+    let pmax = cx::threads_max(cfg);
+
     cx::set_vcap(n.max(pmax) + 1);
 
-    let p = nd::below(pmax) + 1;
-
-    cx::set_parallelism(p);
+    let p = cx::threads(cfg);
 
     let d = AdjacencyList::complete(n);
 
     is(&d, n, |_, _| true);
-    kani::cover!(p > n, "more threads than rows");
-    kani::cover!(p > 1 && n % p != 0, "rows not a multiple of the chunk count");
+    kani::cover!(pmax <= n || p > n, "more threads than rows");
+    kani::cover!(cfg >= cx::EXACT || (p > 1 && n % p != 0), "rows not a multiple of the chunk count");
     core::mem::forget(d);
 }
 
@@ -206,12 +254,20 @@ pub fn c14_matrix_orders_1_5() {
     orders::<AdjacencyMatrix>(1, 5);
 }
 
-// AdjacencyMatrix at orders 8 and 9: 64 and 81 cells, i.e. on and across the 64-bit block boundary.
+// AdjacencyMatrix at order 8: 64 cells = exactly one 64-bit block (complete, empty, circuit, star).
+// @verif prop=C14 tier=quick fl=f0 role=orders/matrix-block-boundary t=1800 mem=16
+#[cfg_attr(kani, kani::proof)]
+#[cfg_attr(kani, kani::unwind(11))]
+pub fn c14_matrix_order_8() {
+    some_at::<AdjacencyMatrix>(8);
+}
+
+// AdjacencyMatrix at order 9: 81 cells = across the block boundary.
 // @verif prop=C14 tier=quick fl=f0 role=orders/matrix-block-boundary t=1800 mem=16
 #[cfg_attr(kani, kani::proof)]
 #[cfg_attr(kani, kani::unwind(12))]
-pub fn c14_matrix_orders_8_9() {
-    orders::<AdjacencyMatrix>(8, 9);
+pub fn c14_matrix_order_9() {
+    some_at::<AdjacencyMatrix>(9);
 }
 
 // @verif prop=C14 tier=quick fl=f1 role=orders/edge-list t=1200 mem=12
@@ -272,31 +328,32 @@ pub fn c14_adjacency_map_bicliques() {
     named::<AdjacencyMap>();
 }
 
-// AdjacencyList::complete(5) under every thread count 1..=8 (rows below, equal to, above the thread count).
+// AdjacencyList::complete(5) with 2 and with 8 worker threads (chunks 3+2; one row per thread).
 // @verif prop=C14 tier=quick fl=f2 role=complete-threads/adjacency-list t=1500 mem=14
 #[cfg_attr(kani, kani::proof)]
 #[cfg_attr(kani, kani::unwind(10))]
-pub fn c14_complete_threads_n5_p8() {
-    complete_threads(5, 8);
+pub fn c14_complete_threads_n5_t2_t8() {
+    complete_threads(5, cx::EXACT + 2);
+    complete_threads(5, cx::EXACT + 8);
 }
 
 // @verif prop=C14 tier=quick fl=f0 role=rejects/matrix t=1200 mem=12 expect=panic
 #[cfg_attr(kani, kani::proof)]
-#[cfg_attr(kani, kani::unwind(6))]
+#[cfg_attr(kani, kani::unwind(8))]
 pub fn c14_rejects_matrix() {
     rejects::<AdjacencyMatrix>();
 }
 
 // @verif prop=C14 tier=quick fl=f1 role=rejects/edge-list t=1200 mem=12 expect=panic
 #[cfg_attr(kani, kani::proof)]
-#[cfg_attr(kani, kani::unwind(6))]
+#[cfg_attr(kani, kani::unwind(8))]
 pub fn c14_rejects_edge_list() {
     rejects::<EdgeList>();
 }
 
 // @verif prop=C14 tier=quick fl=f2 role=rejects/adjacency-list t=1200 mem=12 expect=panic
 #[cfg_attr(kani, kani::proof)]
-#[cfg_attr(kani, kani::unwind(6))]
+#[cfg_attr(kani, kani::unwind(8))]
 pub fn c14_rejects_adjacency_list() {
     rejects::<AdjacencyList>();
 }
